@@ -5,6 +5,7 @@
    thresholds, predictions are  distance <= thr. *)
 From Coq Require Import List Reals.
 From ML Require Import Ops Calibrate C16Proof.
+From ML Require Import PinsC16.
 Import ListNotations.
 Open Scope R_scope.
 
@@ -43,3 +44,7 @@ Print Assumptions C16_holds.
 Example C16_nonvacuous : exists data : list sampleR,
   data = [(2, false); (3, true); (2, true); (0, true)] /\ npos data = 3%nat /\ nneg data = 1%nat.
 Proof. eexists; split; [reflexivity|]. split; reflexivity. Qed.
+
+(* text-level tie: the functions this property's hand-written model and harness were written from are unchanged
+   (digests regenerated from /repo on every run; Proofs/PinsC16.v) *)
+Definition C16_source_pins := pins_C16_ok.
